@@ -33,7 +33,8 @@ func Spec() *run.Spec {
 	}
 	return &run.Spec{
 		ID: "C03", Level: "exploration",
-		Rule: "one case = one generated well-formed mesh (gen.Mesh: topology, index pattern identity/permutation/welded/unreferenced/repeated/random, " +
+		Rule: "Since rounds 9-10: value class `dyadic` (exact half rounding steps of both signs) and rotation angles of 2e-8, -1.7e-8 and 9e-9 rad (cos of the half angle rounds to 1). " +
+			"one case = one generated well-formed mesh (gen.Mesh: topology, index pattern identity/permutation/welded/unreferenced/repeated/random, " +
 			"value class, random attribute mix, optional material ranges) on which every operation of the phase is run and compared with its naive " +
 			"corner-view reference. Non-trivial: the mesh has >= 1 primitive and a non-identity index list, and (phases layout/combine/filter, whose " +
 			"operations drop things) at least one dropping operation had >= 1 surviving and >= 1 dropped primitive. Distinct = distinct structural " +
